@@ -238,6 +238,57 @@ def text_key(lit):
     return None
 
 
+# hand-written scenarios around consts, shorthand fields and recovered parse errors (litapi jobs): (name, program,
+# external constants, [(argument index, text)], expected answer).  Each was a panic / a hang / a silently
+# different value of the tree as found (known_findings.json: c09-*-r4); expectations written from the guide.
+API_SCENARIOS = [
+    ("own-usize-const-param", "const N: usize = 3usize; pub fn main(x: [u8; N], d: bool) -> [u8; N] { x }", [],
+     [(0, "[1, 2, 3]"), (1, "true")], '(ok "[1, 2, 3]" 24) (ok "true" 1) (out "[1, 2, 3]")'),
+    ("own-usize-const-result", "const N: usize = 2usize; pub fn main(x: u8) -> [u8; N] { [x; N] }", [],
+     [(0, "7")], '(ok "7" 8) (out "[7, 7]")'),
+    ("ext-usize-const-param", "const N: usize = PARTY_0::N; pub fn main(x: [u8; N], d: bool) -> [u8; N] { x }",
+     [("PARTY_0", "N", "usize", 2)], [(0, "[4, 5]"), (1, "false")], '(ok "[4, 5]" 16) (ok "false" 1) (out "[4, 5]")'),
+    ("shorthand-field-names-a-const", "const N: usize = 3usize; const B: bool = true; struct S { N: usize, B: bool } "
+     "pub fn main(x: S, d: bool) -> S { x }", [], [(0, "S {N, B}")], "(err)"),
+    ("shorthand-field-names-a-const-2", "const N: usize = 3usize; const B: bool = true; struct S { N: usize, B: bool } "
+     "pub fn main(x: S, d: bool) -> S { x }", [], [(0, "S {N: 1, B}")], "(err)"),
+    ("shorthand-field-no-const", "struct S { a: u8, b: bool } pub fn main(x: S, d: bool) -> S { x }", [],
+     [(0, "S {a, b}")], "(err)"),
+    ("repeat-size-names-a-const", "const N: usize = PARTY_0::N; pub fn main(t: [u8; N], d: bool) -> [u8; N] { t }",
+     [("PARTY_0", "N", "usize", 2)], [(0, "[1; N]")], "(err)"),
+    ("repeat-size-names-a-const-in-struct", "const N: usize = PARTY_0::N; struct S { a: [u8; N], c: bool } "
+     "pub fn main(s: S, t: [u8; N]) -> bool { s.c }", [("PARTY_0", "N", "usize", 2)],
+     [(0, "S {a: [1; N], c: true}")], "(err)"),
+    ("range-suffixes-disagree", "pub fn main(x: [u8; 3], d: bool) -> [u8; 3] { x }", [], [(0, "0u8..3u16")], "(err)"),
+    ("range-suffixes-agree", "pub fn main(x: [u8; 3], d: bool) -> [u8; 3] { x }", [],
+     [(0, "0u8..3u8"), (1, "true")], '(ok "0u8..3u8" 24) (ok "true" 1) (out "[0, 1, 2]")'),
+    ("huge-repeat-of-unit", "pub fn main(x: [(); 18446744073709551615], d: bool) -> bool { d }", [],
+     [(0, "[(); 18446744073709551615]"), (1, "true")], '(ok "[(); 18446744073709551615]" 0) (ok "true" 1) (out "true")'),
+    ("repeat-of-bytes", "pub fn main(x: [u8; 3], d: bool) -> [u8; 3] { x }", [],
+     [(0, "[5; 3]"), (1, "true")], '(ok "[5; 3]" 24) (ok "true" 1) (out "[5, 5, 5]")'),
+]
+
+
+def api_scenarios(ck):
+    jobs = []
+    for name, src, exts, args, _ in API_SCENARIOS:
+        jobs.append("(litapi %s (src %s) %s %s)" % (
+            name, quote(src), " ".join('(ext %s %s %s %d)' % (quote(p), quote(n), t, v) for p, n, t, v in exts),
+            " ".join("(arg %d %s)" % (i, quote(t)) for i, t in args)))
+    rs = run_jobs(GVRUN, jobs, "c09.api", timeout_per_job=5.0)
+    bad = 0
+    for (name, src, exts, args, want), job in zip(API_SCENARIOS, jobs):
+        got = rs.get(name, "(no-result)")
+        if got.strip() != want:
+            bad += 1
+            ck.violation(f"literal API scenario {name}: expected {want}, the implementation answers {got}",
+                         {"job": job, "expected": want, "rust": got, "kind": "litapi"}, key=None)
+    ck.obligation("literal API scenarios (consts in sizes, shorthand fields, recovered parse errors, zero-sized "
+                  "repeats): parse_arg / as_bits / eval / parse_output give the hand-written answers", bad == 0,
+                  f"{bad} of {len(API_SCENARIOS)} differ")
+    return len(API_SCENARIOS)
+
+
 def run(ck):
     quick = ck.tier == "quick"
     ck.prepare("C09")
@@ -402,7 +453,8 @@ def run(ck):
             check_accept_sound(ck, job, r, m, rf, mf, None, "parse_arg")
             r2_checked += 1
 
-    total = len(jobs) + len(round2)
+    n_api = api_scenarios(ck)
+    total = len(jobs) + len(round2) + n_api
     ck.obligation("correspondence: literal_arg/is_of_type, as_bits, from_unwrapped_bits equal the model on every "
                   "generated (definitions, type, literal) and on every literal that parsing produced",
                   mism == 0, f"{mism} differing jobs")
